@@ -122,6 +122,29 @@ def _simpler(op: dict):
                 c = copy.deepcopy(op)
                 c["verdicts"][uid] = [v[0], "ret"]
                 yield c
+    if op.get("k") == "fromdict":
+        # drop one item (with its subtree), hoist an item's children, drop an id
+        def variants(items):
+            for i, (src, did, kids) in enumerate(items):
+                yield items[:i] + items[i + 1:]
+                if kids:
+                    yield items[:i] + [[src, did, []]] + items[i + 1:]
+                    yield items[:i] + kids + items[i + 1:]
+                if did is not None:
+                    yield items[:i] + [[src, None, kids]] + items[i + 1:]
+                for sub in variants(kids):
+                    yield items[:i] + [[src, did, sub]] + items[i + 1:]
+
+        for v in variants(op["items"]):
+            if v:
+                c = copy.deepcopy(op)
+                c["items"] = copy.deepcopy(v)
+                yield c
+        for key in ("mapper", "empty_children_key"):
+            if key in op:
+                c = dict(op)
+                del c[key]
+                yield c
     if op.get("k") == "sort" and "key" in op:
         c = dict(op)
         del c["key"]
